@@ -70,3 +70,10 @@ Lemma tie_safe_fmtqfn : forall (dir : Bytes.bytes) (id split : N) (flag : bool) 
   (length (Gen_names.qfn dir id split flag) < length buf)%nat ->
   option_map (fun r => K_fmtqfn.v__oob (snd r)) (K_fmtqfn.run (22 + length dir) buf 0 (zs dir ++ (0 :: nil)) 0 (Z.of_N id) (b2z flag) (Z.of_N split)) = Some 0.
 Proof. exact Gen_names.safe_fmtqfn. Qed.
+(* addrparse() with every array access checked: no access outside an array for any argument, any local IP host name, any set of
+   own addresses (the stralloc stubs keep addr as exactly its len bytes, so an index past the address would be flagged) *)
+From NQ Require Tie.Gen_addrparse.
+Lemma tie_safe_addrparse : forall (arg lh : Bytes.bytes) (addr0 : list Z) (len0 ok : Z) (ipme : list Z),
+  bytes_ok arg -> ~ In 0%N arg -> Z.of_nat (length arg) < 2 ^ 31 -> bytes_ok lh -> Z.of_nat (length lh) < 2 ^ 31 ->
+  option_map (fun r => K_addrparse.v__oob (snd r)) (K_addrparse.run (S (S (length arg))) (zs arg ++ (0 :: nil)) 0 addr0 len0 ok ipme (zs lh) (Z.of_nat (length lh))) = Some 0.
+Proof. exact Gen_addrparse.safe_addrparse. Qed.
